@@ -234,7 +234,28 @@ def sx_len(x):
     return _b.len(x)
 
 
+class LazyRange:
+    """range(n) for a symbolic n: iterates while (i < n) is feasible (one decision per iteration) instead of
+    enumerating the values of n; the loop body usually ends the iteration (e.g. the stack runs empty)"""
+
+    def __init__(self, n, cap=700):
+        self.n, self.cap = n, cap
+
+    def __iter__(self):
+        i = 0
+        while bool(i < self.n):
+            if i >= self.cap:
+                eng().fail(Unsupported, f'range(symbolic): more than {self.cap} iterations')
+            yield i
+            i += 1
+
+    def __len__(self):
+        return _conc(self.n)
+
+
 def sx_range(*args):
+    if len(args) == 1 and isinstance(args[0], SymInt):
+        return LazyRange(args[0])
     return _b.range(*[_conc(a) for a in args])
 
 
